@@ -105,6 +105,97 @@ def plan_codec(fam, mc=None, note="", module="TraceCodec", level="model_checking
     return f
 
 
+def plan_pool(run, tmp):
+    known = V.load_known()
+    hx = V.build_harness(tmp)
+    # (A) model checking of the pool design
+    for cfg in (["HPool_s0", "HPool_s1", "HPool"] if run.tier == "quick" else ["HPool_s0", "HPool_s1", "HPool", "HPool_big"]):
+        r = V.model_check(tmp, "HPool", cfg)
+        run.add_mc(cfg, r, "Exclusive, Bounded, NeverBlocks (ENABLED Get/Return in every state), FreshWhenEmpty; all interleavings of 3 goroutines")
+    r = V.model_check(tmp, "HPool", "HPool_negblock", expect="NeverBlocks")
+    run.add_mc("HPool_negblock", r, "negative: Return without default violates NeverBlocks")
+    r = V.model_check(tmp, "HPool", "HPool_negbound", expect="Bounded")
+    run.add_mc("HPool_negbound", r, "negative: Return that always keeps violates Bounded")
+    # (B) spec -> code: every behaviour of HPool for small constants replayed on the real pools
+    vec = V.os.path.join(tmp, "pool_vectors.ndjson")
+    first = True
+    gens = [("{1, 2}", 0, 3), ("{1, 2}", 1, 3), ("{1, 2}", 2, 3), ("{1, 2, 3}", 1, 2)]
+    if run.tier == "thorough":
+        gens += [("{1, 2}", 1, 4), ("{1, 2}", 2, 4), ("{1, 2, 3}", 2, 2), ("{1, 2, 3}", 0, 2)]
+    nvec = 0
+    for i, (g, size, maxops) in enumerate(gens):
+        cfg = "SPECIFICATION Spec\nCONSTANTS G = %s\n Size = %d\n MaxOps = %d\n Deviation = \"none\"\nINVARIANTS Emit\nCHECK_DEADLOCK FALSE\n" % (g, size, maxops)
+        r = V.tlc_vectors(tmp, "HPool", "GenPool%d" % i, cfg, vec, append=not first)
+        first = False
+        nvec += r["vectors"]
+        run.add_mc("GenPool%d" % i, r, "generator: all behaviours with G=%s Size=%d MaxOps=%d printed as replay vectors" % (g, size, maxops))
+    out = V.os.path.join(tmp, "tr_poolseq")
+    V.run_hx(hx, ["poolseq", "-vectors", vec, "-out", out, "-shards", str(V.NCPU)])
+    shards = V.shard_files(out)
+    v = V.validate_shards(tmp, "TracePoolSeq", shards, "poolseq")
+    summary = V.json.load(open(V.os.path.join(out, "summary.json")))
+    summary["vectors_from_tlc"] = nvec
+    run.add_validation("poolseq", v, summary)
+    V.judge(run, known, v["rejs"], shards, dict(hx=["poolseq", "-vectors", "(regenerate with GenPool)"], seed=run.seed, tier=run.tier, module="TracePoolSeq"))
+    # objects handed out are usable: a round trip with each (validated by TraceCodec)
+    ushards = V.shard_files(out, "use")
+    vu = V.validate_shards(tmp, "TraceCodec", ushards, "pooluse")
+    vu["rejs"] = [r for r in vu["rejs"] if not r[1].startswith("C02.dateUnit")]
+    run.add_validation("pooluse", vu, dict(evaluations=vu["events"], traces=vu["events"], distinct_nontrivial=0, family_rule="a round trip of a probe value through every object obtained from a pool"))
+    V.judge(run, known, vu["rejs"], ushards, dict(hx=["poolseq"], seed=run.seed, tier=run.tier, module="TraceCodec"))
+    # (C) code -> spec: concurrent histories, linearizability against the same transitions
+    outc = V.os.path.join(tmp, "tr_poolconc")
+    hxr = V.build_harness(tmp, race=True)
+    V.run_hx(hxr, ["poolconc", "-seed", str(run.seed), "-tier", run.tier, "-out", outc, "-shards", str(V.NCPU)])
+    cshards = V.shard_files(outc)
+    st = conc_validate(run, tmp, cshards)
+    summary = V.json.load(open(V.os.path.join(outc, "summary.json")))
+    run.add_validation("poolconc", st, summary)
+    run.assumptions += ["Go channel operations are linearizable (the trace spec searches a linearization point between the start and end ticket of each call)",
+                        "blocking is observed by a 60 s watchdog around each history and a per-call watchdog in sequential replays"]
+    return V.finish(run, "model_checking", "HPool model-checked exhaustively; every HPool behaviour (small constants) replayed on real pools and validated; concurrent histories checked for linearizability against the same transitions under -race")
+
+
+def conc_validate(run, tmp, shards):
+    import concurrent.futures as cf
+
+    def one(i_path):
+        i, path = i_path
+        hdr = V.json.loads(open(path).readline())
+        n = sum(1 for _ in open(path))
+        if hdr.get("blocked"):
+            return dict(rej=("C17.blocked", "history did not finish within 60 s"), hdr=hdr, generated=0, distinct=0, events=0, path=path)
+        d = V.spec_dir(tmp, "poolconc_%02d" % i)
+        tp = V.os.path.join(d, "trace.ndjson")
+        if V.os.path.lexists(tp):
+            V.os.remove(tp)
+        V.os.symlink(path, tp)
+        r = V.run_tlc(d, "TracePool", workers=1, timeout=1500, heap="6g")
+        hw = None
+        for line in r["out"].splitlines():
+            m = V.re.match(r'^<<"HIGHWATER", (\d+), (\d+)>>$', line)
+            if m:
+                hw = (int(m.group(1)), int(m.group(2)))
+        if hw is None or "No error has been found" not in r["out"] and "Bounded is violated" not in r["out"]:
+            raise V.Infra("pool history validation did not complete: %s\n%s" % (path, r["out"][-3000:]))
+        rej = None
+        if "Bounded is violated" in r["out"]:
+            rej = ("C17.bounded", "pool retained more than its size")
+        elif hw[0] != hw[1]:
+            rej = ("C17.notLinearizable", "no behaviour of the pool specification explains the history beyond line %d of %d" % (hw[0], hw[1] - 1))
+        return dict(rej=rej, hdr=hdr, generated=r["generated"], distinct=r["distinct"], events=n - 1, path=path)
+    with cf.ThreadPoolExecutor(max_workers=max(2, V.NCPU // 2)) as ex:
+        rs = list(ex.map(one, enumerate(shards)))
+    for r in rs:
+        if r["rej"]:
+            import shutil
+            V.os.makedirs(V.os.path.join(V.VERIF, "replays"), exist_ok=True)
+            rp = V.os.path.join(V.VERIF, "replays", "C17-history-%d-seed%d.ndjson" % (r["hdr"]["id"], run.seed))
+            shutil.copy(r["path"], rp)
+            run.violations.append((r["rej"][0], r["rej"][1], rp, 1))
+    return dict(rejs=[], events=sum(r["events"] for r in rs), generated=sum(r["generated"] for r in rs), distinct=sum(r["distinct"] for r in rs))
+
+
 PLANS = {
     "C01": plan_codec("c01", None, "round trips of generated zoo values recorded as rt events and validated by TLC against TraceCodec (SameCodes)"),
     "C02": plan_codec("c01", None, "encoder output of generated zoo values parsed by the TLA+ reference decoder (ParseWhole) and related to the value by Denotes"),
@@ -114,6 +205,7 @@ PLANS = {
     "C04": plan_codec("c04", None, "pointer graphs (exhaustive small, random large) encoded and decoded; TLC checks ref ordinals on the wire (Denotes binds node->ordinal) and identity in the decoded graph (canonical numbering equality)"),
     "C06": plan_codec("c06", None, "multi-value streams through one encoder/decoder and one serializer over a counting reader; TLC threads the stream state (class, type and ref tables) through the whole history: framing offsets, denotation with cross-value refs, order, no carrier"),
     "C15": plan_codec("c15", fault_mc, "fault enumeration: for each value and writer-taking entry point every Write index k x 4 fault kinds is executed against the real encoder; each run's writer log is replayed by TLC through HFault (FaultSurfaces)", module="TraceFault", level="fault_enumeration", selftest=False),
+    "C17": plan_pool,
     "C13": plan_codec("c13", None, "encode calls on values containing an unsupported kind at every position: TLC requires an error (no panic, no success), and well-formed output for the control values"),
     "C10": plan_codec("c10", scalar_mc, "timestamp round trips validated by TLC at millisecond resolution"),
 }
